@@ -116,6 +116,13 @@ func Alphabet() []Sym {
 		{Name: "Resend1to2", Type: "2", Build: func(p *Peer, lim [2]int) []byte { return p.Resend(1, 2) }},
 		{Name: "Logout", Type: "5", Build: func(p *Peer, lim [2]int) []byte { return p.Logout() }},
 		{Name: "App", Type: "V", Build: func(p *Peer, lim [2]int) []byte { return p.App("r" + strconv.Itoa(p.Seq+1)) }},
+		// an application message whose header fields stand in front of MsgType, the first of them with the value "A", and
+		// which carries the fields a Logon would carry: it is not a Logon
+		{Name: "AppWithValueAInFrontOfMsgType", Type: "D", Build: func(p *Peer, lim [2]int) []byte {
+			p.Seq++
+			mid := "49=A\x0135=D\x0156=" + p.Target + "\x0134=" + strconv.Itoa(p.Seq) + "\x0152=20240101-00:00:00.000\x0198=0\x01108=" + strconv.Itoa(mid(lim)) + "\x01553=user\x01554=pw\x01"
+			return fixref.EncodeRaw(fixref.Std, "FIX.4.4", []byte(mid))
+		}},
 		{Name: "Unknown", Type: "ZZ", Build: func(p *Peer, lim [2]int) []byte { return p.Msg("ZZ", fixref.F("58", "hello")) }},
 		{Name: "LocalSend", Local: true},
 		{Name: "LocalLogout", Local: true},
